@@ -9,6 +9,10 @@ IdPoolDef == {NoId, 0, -1, 2}
 IdPoolSmall == {NoId, 0}
 IdPoolNone == {NoId}
 DefValsGraph == {0, 5, 10}
+\* VERIF_READD=1: objects the caller got back (removed / rejected) may be handed in again
+ReAddEnv == EnvOr("VERIF_READD", "0") = "1"
+ReAddYes == TRUE
+StepPoolOne == {"s"}
 MaxAssetsDef == atoi(EnvOr("VERIF_MAXASSETS", "3"))
 MaxAssocsDef == atoi(EnvOr("VERIF_MAXASSOCS", "3"))
 MaxMembersDef == atoi(EnvOr("VERIF_MAXMEMBERS", "2"))
